@@ -219,6 +219,13 @@ class Kernel:
                 import traceback
                 p.error = ''.join(traceback.format_exception(type(e), e, e.__traceback__))[-4000:]
                 p.exit_kind = 'crashed'
+                if p.role == 'worker':
+                    # a pool worker that dies outside a task: CPython notices the dead process and breaks the pool
+                    try:
+                        for pool in self.pools:
+                            pool._worker_died(p)
+                    except Exception:  # noqa: BLE001
+                        pass
             finally:
                 self._proc_done(p)
 
